@@ -310,6 +310,8 @@ def _run(pid, P, tier, seed, scratch, t0):
             runs[-1]['cfg'] += ',seed=%d' % (seed + sd)
 
     failures, inconclusive = [], []
+    for msg in meta['notes'].get('lost_optional', []):
+        print('NOTE property=%s optional proof-hint anchor not found (the code changed shape); verifying without it: %s' % (pid, msg))
     for r in runs:
         f, i = classify(r, meta)
         failures += f
